@@ -21,7 +21,8 @@ def index(left: Sequence[object], obj: object) -> object:
     """
     try:
         return left.index(obj)
-    except ValueError:
+    except (ValueError, AttributeError):
+        # not found, or the left value is undefined
         return None
 
 
